@@ -13,6 +13,10 @@ func genStorageProgram(t *sim.Tape, prog int) (string, []srcModule) {
 	if prog < len(corpus) {
 		return corpus[prog], nil
 	}
+	if prog < len(corpus)+4 {
+		// a few size-edge programs (the small ones: the single-fault space is enumerated per program)
+		return edgeCorpus[[]int{0, 1, 3, 6}[prog-len(corpus)]], nil
+	}
 	g := newGen(t, genConfig{Modules: true, Hosts: true, Consts: true})
 	return g.program()
 }
